@@ -484,6 +484,24 @@ func (r *Run) c01Maintenance(i int) {
 		// let the receive loop pick the datagram up while the caller is still where it is
 		time.Sleep(300 * time.Microsecond)
 	}
+	// the contacts answer the maintenance queries (bootstrap find_node, questionable-node pings, bucket
+	// refreshes) with hostile replies: every subset of fields present, absent or malformed
+	pub, priv, _ := ed25519.GenerateKey(rngReader{sc.r})
+	var rbudget atomic.Int64
+	rbudget.Store(int64(r.rng.Intn(40)))
+	sc.conn.onWrite = func(w written) {
+		d := parseDgram(w)
+		if !d.ok || d.y != "q" || rbudget.Add(-1) < 0 {
+			return
+		}
+		lmu.Lock()
+		raw := sc.hostileReplyTo(lr, d, pub, nil, priv)
+		lmu.Unlock()
+		sc.r.lastInput(fmt.Sprintf("from %s: hostile reply to the node's own %s query t=%x during table maintenance (hex %s)", w.Addr, d.q, d.t, hx(raw)))
+		sc.r.hist("stream/hostile-reply-during-maintenance/" + d.q)
+		sc.conn.inject(raw, w.Addr)
+	}
+	defer func() { sc.conn.onWrite = nil }()
 	sc.resend.Store(int64(2 * time.Millisecond))
 	bl.probe.Store(&probe)
 	go sc.s.TableMaintainer()
